@@ -148,6 +148,9 @@ func (p *peer) reader(pc *pconn) {
 				p.mu.Unlock()
 				continue
 			}
+			if pc.cut {
+				pc.c.SetLinger(0) // a cut is always abortive (RST), whichever branch notices it
+			}
 			pc.c.Close()
 			pc.closed = true
 			p.cond.Broadcast()
@@ -397,6 +400,8 @@ type runner struct {
 	pausedBytes, closesWithBacklog      int
 	pausedIdx                           []int
 	slow                                bool
+	sinceOwnerClose                     bool // Close / ApplyConfig by the owner, and no confirmed delivery since
+	resetDelivered                      bool // the peer reset the connection and the RST has arrived: the next write fails visibly
 	reconfs                             int
 }
 
@@ -503,6 +508,9 @@ func run(c Case) *pbt.Result {
 			p := mkPack(r.nextID, a.Size, a.Seed)
 			idx := r.record(p, a.Override, 0)
 			err := doSend(cl, p, a.Override)
+			if err != nil {
+				r.resetDelivered = false
+			}
 			switch {
 			case !r.faulted:
 				if err != nil {
@@ -514,6 +522,8 @@ func run(c Case) *pbt.Result {
 					r.pausedIdx = append(r.pausedIdx, idx)
 				} else if !r.waitReceived(idx, 0) {
 					return pbt.Fail("action %d: Send returned nil on a healthy connection but the frame (id %d, %d bytes) was not received within %v", ai, r.nextID, len(r.all[idx].frame), waitLimit)
+				} else {
+					r.sinceOwnerClose = false
 				}
 			case err != nil:
 				r.errSeen = true
@@ -524,6 +534,9 @@ func run(c Case) *pbt.Result {
 					}
 				}
 			default: // nil while faulted
+				if r.resetDelivered && !r.errSeen {
+					return pbt.Fail("action %d: the collector reset the connection (RST, delivered before this send) - the loss of frame id %d is detectable at the first write to the socket, yet Send returned nil", ai, r.nextID)
+				}
 				if r.errSeen && r.listening {
 					// an error was reported, so this send went out on a re-dialled connection: it must arrive there
 					if !r.waitReceived(idx, r.connsAtFault) {
@@ -535,6 +548,7 @@ func run(c Case) *pbt.Result {
 				}
 				// nil before any error was reported: the write went into a dead socket; loss is not detectable, no constraint
 			}
+			r.resetDelivered = false // only the first send after the reset is judged
 		case "burst":
 			if r.faulted || !r.listening {
 				continue
@@ -587,7 +601,9 @@ func run(c Case) *pbt.Result {
 			}
 			r.bursts++
 		case "cut", "reset":
-			if r.faulted || pr.nconns() == 0 {
+			if r.faulted || pr.nconns() == 0 || r.sinceOwnerClose {
+				// (after the owner closed or reloaded, no frame has yet been confirmed on the client's present
+				// connection: the harness does not know which of the peer's connections that is)
 				continue
 			}
 			after := a.After
@@ -599,6 +615,11 @@ func run(c Case) *pbt.Result {
 			if after == 0 {
 				// make sure the peer has really closed before the next action (otherwise the next send may still be read)
 				pr.waitFor(func() bool { return pr.conns[len(pr.conns)-1].closed })
+				if a.K == "reset" {
+					// the peer closes with SO_LINGER 0: an RST goes out at once; give loopback time to deliver it
+					time.Sleep(40 * time.Millisecond)
+					r.resetDelivered = true
+				}
 			}
 			r.faulted, r.errSeen, r.attempts = true, false, 0
 			r.faults++
@@ -638,6 +659,7 @@ func run(c Case) *pbt.Result {
 				r.closesWithBacklog++
 			}
 			cl.Close()
+			r.sinceOwnerClose = true
 		case "reconf":
 			// a configuration reload with another license: later sends carry its hash
 			if !c.Port6600 || r.faulted || !r.listening {
@@ -650,6 +672,7 @@ func run(c Case) *pbt.Result {
 			r.license = fmt.Sprintf("license-%d-after-reload", a.Seed%5)
 			cl.ApplyConfig(mapConf{"license": r.license, "whatap.server.host": host, "pcode": "77"})
 			cl.Timeout = 5 * time.Second
+			r.sinceOwnerClose = true
 			r.reconfs++
 		case "idle":
 			// a quiet period; the connection stays healthy, however old it gets
@@ -763,7 +786,7 @@ func drawActions(t *rapid.T, big bool) []Action {
 
 var specDirect = pbt.Register(pbt.Spec[Case]{
 	Prop: "C06", Name: "direct-mode-histories",
-	Rule:  "histories on a fresh one-way client in direct mode against a harness-owned loopback peer: send (packs of 6 types, 30 B..2.5 MB so that frames exceed the 2 MiB write buffer in the thorough tier, with/without per-send license), burst (2-8 goroutines x 1-6 concurrent sends), peer faults: cut after n bytes of the next frame (mid-header, mid-payload), cut between frames, reset, listener down (k failed connects) / up; collector pauses reading or reads slowly (16 KiB per 2 ms) / resumes, the owner closes the connection (Close, or ApplyConfig with another license when the peer listens on port 6600) with or without accepted frames still unread; in a quarter of the histories the write timeout is 250-400 ms and 1-2 quiet periods longer than it are inserted (the connection stays healthy however old it is); oracle = every connection's stream is a concatenation of whole frames (a partial tail only where the peer cut), every frame equals the reference frame of exactly one send (pack's project code, hash of the license in force, exact length), none twice, per-sender order kept, every send that returned nil on a healthy connection is received, from the first reported error on the client recovers within three sends once the listener is up and the first nil send arrives on a new connection; non-trivial = a frame delivered after a fault, or a concurrent burst; distinct by case",
+	Rule:  "histories on a fresh one-way client in direct mode against a harness-owned loopback peer: send (packs of 6 types, 30 B..2.5 MB so that frames exceed the 2 MiB write buffer in the thorough tier, with/without per-send license), burst (2-8 goroutines x 1-6 concurrent sends), peer faults: cut after n bytes of the next frame (mid-header, mid-payload), cut between frames, reset, listener down (k failed connects) / up; collector pauses reading or reads slowly (16 KiB per 2 ms) / resumes, the owner closes the connection (Close, or ApplyConfig with another license when the peer listens on port 6600) with or without accepted frames still unread; in a quarter of the histories the write timeout is 250-400 ms and 1-2 quiet periods longer than it are inserted (the connection stays healthy however old it is); oracle = every connection's stream is a concatenation of whole frames (a partial tail only where the peer cut), every frame equals the reference frame of exactly one send (pack's project code, hash of the license in force, exact length), none twice, per-sender order kept, every send that returned nil on a healthy connection is received, the first send after a reset whose RST has been delivered reports an error (the loss is detectable), from the first reported error on the client recovers within three sends once the listener is up and the first nil send arrives on a new connection; non-trivial = a frame delivered after a fault, or a concurrent burst; distinct by case",
 	Quick: 60, Thorough: 2000,
 	Draw: func(t *rapid.T) Case {
 		c := Case{Actions: drawActions(t, pbt.Thorough())}
